@@ -24,6 +24,18 @@ claims = {
          "A banned kind yields an error located at the directive and leaves every heap location unchanged, at all four consumers: addDirective, processInclude (before any file access: ghost I/O counter unchanged), addMacro, processPasteDirective.",
          "unchanged() compares all heap arrays touched by the function on pre-existing objects; the 'option changes nothing else' two-run half is not claimed.",
          "contract-based deductive verification: conditional frame postconditions, VCs from go/ssa discharged by z3/cvc5", "DESIGN.md 4.C18"),
+ "C09": ("proof",
+         "Partial claim: representation invariant of every ordered collection (order has no duplicates, every ordered key is present, as many keys as entries) preserved by Set/SetToTop with whole-view postconditions; key texts: HTTP interaction ids are injective (lemma, SMT strings); AddTag/AddServer keep the invariant. Known finding: JSON-RPC ids are not injective.",
+         "Assumed: fmt.Sprintf %s semantics for the two String() methods (trusted contracts); MarshalJSON emits one member per element of order (loop shape read, byte-level JSON is encoding/json's). UTF-8/JSON well-formedness and compact == indented are not claimed.",
+         "contract-based deductive verification + SMT string lemmas", "DESIGN.md 4.C09"),
+ "C11": ("proof",
+         "Partial claim: local rejection contracts, each of the shape 'condition on the pre-state implies an error and every heap location unchanged': duplicate tag / server / macro, second JSIGHT / INFO / Title / Version / Description-of-info, macro without name or without body, PASTE of an undefined macro.",
+         "The remaining adders of setters.go / build_catalog_directives.go (interactions, types, enums, paths) are not yet under contract; 'one injected fault always causes rejection' end-to-end is not claimed.",
+         "contract-based deductive verification: conditional frame postconditions (unchanged())", "DESIGN.md 4.C11"),
+ "C07": ("proof",
+         "Partial claim: addMacro rejects a macro without name, without body, or with a duplicate name and leaves the macro table unchanged; processPasteDirective rejects an undefined macro; the replay pass never changes the parent of a pre-existing directive. Mutual recursion of macros (a crash before) is repaired by a fix: commit; its termination argument is not machine-checked.",
+         "Not claimed: 'paste == inlining', 'unused macro contributes nothing' (two runs); termination of the macro expansion (the cycle check is a graph search that is not under a functional contract).",
+         "contract-based deductive verification", "DESIGN.md 4.C07"),
  "C13": ("exploration",
          "BOUNDED stand-in (not a proof): the real pathParameters/PathParameters are executed on every path over {/, {, }, a, b} up to length 7 (thorough: 9) and compared with the declarative split; no panic, empty/repeated names rejected.",
          "Bounded by alphabet and length (stated in evidence coverage.rule). Project-wide binding of Path properties to interactions is not claimed.",
